@@ -202,6 +202,8 @@ func usedSyms(ts ...string) map[string]bool {
 	return m
 }
 
+var baseSyms = map[string]bool{"objkind": true, "objowner": true, "strlen": true, "wraps": true}
+
 var declNameRe = regexp.MustCompile(`^\((?:declare-const|declare-fun|define-fun)\s+(\|[^|]*\||\S+)`)
 
 func (q *Query) Text(prelude []string) string {
@@ -255,21 +257,39 @@ func (q *Query) Text(prelude []string) string {
 				}
 				continue
 			}
-			// an axiom: include when all its declared symbols are already used
-			ok := true
-			any := false
+			// an axiom: include when one of its non-base declared symbols is used (base symbols alone
+			// never pull an axiom in; they are declared on demand)
+			hit := false
 			for k := range usedSyms(x.line) {
-				if declared[k] {
-					any = true
-					if !used[k] {
-						ok = false
-						break
+				if declared[k] && !baseSyms[k] && used[k] {
+					hit = true
+					break
+				}
+			}
+			if !hit {
+				onlyBase := true
+				for k := range usedSyms(x.line) {
+					if declared[k] && !baseSyms[k] {
+						onlyBase = false
+					}
+				}
+				if onlyBase {
+					hit = true
+					for k := range usedSyms(x.line) {
+						if declared[k] && !used[k] {
+							hit = false
+						}
 					}
 				}
 			}
-			if ok && any {
+			if hit {
 				include[i] = true
 				changed = true
+				for k := range usedSyms(x.line) {
+					if declared[k] && !used[k] {
+						used[k] = true
+					}
+				}
 			}
 		}
 	}
